@@ -198,6 +198,7 @@ theorem op_sim (p : TP) (st : Ref.St) (hs : Sim specs p st) (o : POp)
       (guarded_consistent fun a r h => relativeTo_consistent h)
 
 
+omit hwf in
 theorem sim_step (p : TP) (st st' : Ref.St) (hs : Sim specs p st) (hh : st'.host = st.host)
     (hc : st'.path.Consistent) : Sim specs (lift p.host st'.path) st' :=
   ⟨by rw [hh]; exact hs.host, by rw [hh]; exact hs.lt, rfl, hc⟩
@@ -221,7 +222,7 @@ theorem chain_sim : ∀ (ops : List POp) (p : TP) (st : Ref.St) (_ : Sim specs p
       obtain ⟨hh, hc⟩ := h2 st' hr
       have hq2 := hq.2
       rw [hr] at hq2
-      exact chain_sim t _ st' (sim_step specs hwf p st st' hs hh hc) (k + 1) hw.2 hq2
+      exact chain_sim t _ st' (sim_step specs p st st' hs hh hc) (k + 1) hw.2 hq2
 
 /-- related optional paths (comparison operand, `Background` files) -/
 def ORel (specs : List MSpec) : Option TP → Option Ref.St → Prop
@@ -230,6 +231,7 @@ def ORel (specs : List MSpec) : Option TP → Option Ref.St → Prop
       q.path = o.path
   | _, _ => False
 
+omit hwf in
 theorem argPath_sim (p : TP) (st : Ref.St) (hs : Sim specs p st) (a : AArg)
     (ha : argWf specs.length true a = true) :
     ORel specs (TPath.argPath (buildMachines specs []) p a) (Ref.argSt st a) := by
@@ -358,7 +360,7 @@ theorem query_sim (p : TP) (st : Ref.St) (hs : Sim specs p st) (q : Query)
   | «match» pat => simp [TPath.query, Ref.query, TP.match, hs.path]
   | cmp a =>
     simp only [queryWf] at hq
-    have hrel := argPath_sim specs hwf p st hs a hq
+    have hrel := argPath_sim specs p st hs a hq
     simp only [TPath.query, Ref.query]
     cases hq' : TPath.argPath (buildMachines specs []) p a with
     | none =>
@@ -405,14 +407,14 @@ theorem query_sim (p : TP) (st : Ref.St) (hs : Sim specs p st) (q : Query)
       | none => trivial
       | some a =>
         simp only [Option.all_some, Bool.and_eq_true] at hout
-        exact argPath_sim specs hwf p st hs a hout.1
+        exact argPath_sim specs p st hs a hout.1
     have he : ORel specs (err.bind (TPath.argPath (buildMachines specs []) p))
         (err.bind (Ref.argSt st)) := by
       cases err with
       | none => trivial
       | some a =>
         simp only [Option.all_some, Bool.and_eq_true] at herr
-        exact argPath_sim specs hwf p st hs a herr.1
+        exact argPath_sim specs p st hs a herr.1
     simp only [TPath.query, Ref.query, background_sim specs hwf _ _ _ _ ho he h hh]
   | auth h =>
     simp only [TPath.query, Ref.query, TP.authKey]
